@@ -337,15 +337,21 @@ sexp sexp_json_read (sexp ctx, sexp self, sexp_sint_t n, sexp in) {
 
 sexp json_write (sexp ctx, sexp self, sexp obj, sexp out, int depth);
 
-#define FLONUM_SIGNIFICANT_DIGITS 10
+#define FLONUM_MIN_SIGNIFICANT_DIGITS 10
+#define FLONUM_SIGNIFICANT_DIGITS 17
 #define FLONUM_EXP_MAX_DIGITS 3
 sexp json_write_flonum(sexp ctx, sexp self, const sexp obj, sexp out) {
+  int digits;
   if (sexp_infp(obj) || sexp_nanp(obj)) {
     return sexp_json_write_exception(ctx, self, "unable to encode number", obj);
   }
   /* Extra space for signs (x2), dot, E and \0 */
   char cout[FLONUM_SIGNIFICANT_DIGITS + FLONUM_EXP_MAX_DIGITS + 5];
-  snprintf(cout, sizeof(cout), "%.*G", FLONUM_SIGNIFICANT_DIGITS, sexp_flonum_value(obj));
+  /* use the fewest digits which read back as the same number */
+  for (digits = FLONUM_MIN_SIGNIFICANT_DIGITS; digits <= FLONUM_SIGNIFICANT_DIGITS; ++digits) {
+    snprintf(cout, sizeof(cout), "%.*G", digits, sexp_flonum_value(obj));
+    if (strtod(cout, NULL) == sexp_flonum_value(obj)) break;
+  }
   sexp_write_string(ctx, cout, out);
   return SEXP_VOID;
 }
